@@ -514,6 +514,31 @@ Proof.
     + rewrite Hc2, Hc1. reflexivity.
 Qed.
 
+(* where a migrated sector ends up *)
+Lemma mig_move_vols v idx r to s s' :
+  mig_move v idx r to s = Ok s' ->
+  vols s' = vupd (fst to) (wr (snd to) (Some r) 1) (vupd v (wr idx None (-1)) (vols s)) /\
+  cons s' = cons s /\ temps s' = temps s /\ known s' = known s.
+Proof.
+  destruct to as [tv ti]. unfold mig_move. cbn [fst snd].
+  destruct (v =? tv)%N eqn:Ev.
+  - apply N.eqb_eq in Ev; subst tv. intros [= <-]. repeat split; try reflexivity.
+    rewrite !set_slot_vols. rewrite !vupd_vupd by reflexivity. apply vupd_ext. intros x. unfold wr; cbn.
+    destruct x; unfold set_used, set_slots; cbn. f_equal. lia.
+  - apply N.eqb_neq in Ev.
+    destruct (vol_usage v (-1) (set_slot tv ti (Some r) (set_slot v idx None s))) as [s2| |] eqn:U1; cbn [bind]; try discriminate.
+    intros U2.
+    apply vol_usage_ok in U1 as [x1 [_ [_ [Hv1 [Hm1 [Hk1 [Ht1 Hc1]]]]]]].
+    apply vol_usage_ok in U2 as [x2 [_ [_ [Hv2 [Hm2 [Hk2 [Ht2 Hc2]]]]]]].
+    repeat split.
+    + rewrite Hv2, Hv1, !set_slot_vols.
+      rewrite (vupd_comm v tv) by (auto; reflexivity).
+      rewrite !vupd_vupd by reflexivity. reflexivity.
+    + rewrite Hc2, Hc1. reflexivity.
+    + rewrite Ht2, Ht1. reflexivity.
+    + rewrite Hk2, Hk1. reflexivity.
+Qed.
+
 Lemma slots_of_get v s j r : inv s -> In (j, Some r) (slots_of v s) ->
   exists vl, vget v (vols s) = Some vl /\ sget j (vslots vl) = Some (Some r).
 Proof.
